@@ -224,7 +224,9 @@ static void creation_case(int type, int a, int b, int viafile)
 /* keys of several sections created alternately (so that a section's entries are not adjacent), overwritten, fetched */
 static void interleave_case(int type, int viafile)
 {
-  static const char *GR[3] = { NULL, "net", "disk" };
+  /* two of the three section names and two of the three key names are equal under the library's own string hash (djb2): a typed
+   * value lives under the name it was stored with, not under a name that merely hashes alike */
+  static const char *GR[3] = { NULL, "ab", "bA" }, *KN3[3] = { "r0b", "r1A", "k2" };
   econf_file *w = NULL, *r = NULL; char key[8], msg[200], m2[400], path[400];
   int tag = 400 + viafile * 8 + type;
   econf_newKeyFile(&w, '=', '#');
@@ -232,7 +234,7 @@ static void interleave_case(int type, int viafile)
   for (int pass = 0; pass < 2 && !m2[0]; pass++)          /* pass 0 creates, pass 1 overwrites */
     for (int k = 0; k < 3 && !m2[0]; k++) for (int g = 0; g < 3 && !m2[0]; g++) {
       uint64_t bits = type == T_BOOL ? (uint64_t)((g + k + pass) % nbool) : 0x40490fdbu + (uint64_t)(g * 16 + k) + (pass ? 0x100 : 0);
-      snprintf(key, sizeof key, "k%d", k); set_group = GR[g];
+      snprintf(key, sizeof key, "%s", KN3[k]); set_group = GR[g];
       econf_err rc = do_set(w, key, type, bits);
       if (rc) snprintf(m2, sizeof m2, "setter for [%s]%s returned %d", GR[g] ? GR[g] : "", key, (int)rc);
     }
@@ -240,7 +242,7 @@ static void interleave_case(int type, int viafile)
   if (!m2[0] && viafile) { econf_err rc = econf_writeFile(w, mc_work, "il.conf"); snprintf(path, sizeof path, "%s/il.conf", mc_work); if (!rc) rc = econf_readFile(&r, path, "=", "#"); q = r; if (rc) snprintf(m2, sizeof m2, "write/read failed with %d", (int)rc); }
   for (int k = 0; k < 3 && !m2[0]; k++) for (int g = 0; g < 3 && !m2[0]; g++) {
     uint64_t bits = type == T_BOOL ? (uint64_t)((g + k + 1) % nbool) : 0x40490fdbu + (uint64_t)(g * 16 + k) + 0x100;
-    snprintf(key, sizeof key, "k%d", k); get_group = GR[g];
+    snprintf(key, sizeof key, "%s", KN3[k]); get_group = GR[g];
     if (do_get_check(q, key, type, bits, msg, sizeof msg)) snprintf(m2, sizeof m2, "[%s]%s%s: %s", GR[g] ? GR[g] : "", key, viafile ? " after write/read" : "", msg);
   }
   if (m2[0]) {
